@@ -39,7 +39,43 @@ impl SignableBuilderService {
     #[verifier::external_body]
     pub fn compute_protocol_message(&self, t: SignedEntityType) -> (r: Result<ProtocolMessage, StdError>) ensures r is Ok ==> r->Ok_0 == message_for(self, t) { unimplemented!() }
 }
-pub struct Dependencies { pub certifier_service: CertifierService, pub signable_builder_service: SignableBuilderService }
+#[verifier::external_body] pub struct Certificate { _p: core::marker::PhantomData<u8> }
+#[derive(Clone, Copy)] pub struct Epoch(pub u64);
+pub struct TimePointE { pub epoch: Epoch }
+#[verifier::external_body] pub struct EpochServiceA { _p: core::marker::PhantomData<u8> }
+#[verifier::external_body] pub struct SignedEntityConfig { _p: core::marker::PhantomData<u8> }
+#[verifier::external_body] pub struct Counter { _p: core::marker::PhantomData<u8> }
+#[verifier::external_body] pub struct MetricsService { _p: core::marker::PhantomData<u8> }
+impl Counter { #[verifier::external_body] pub fn increment(&self) { unimplemented!() } }
+impl MetricsService { #[verifier::external_body] pub fn get_certificate_total_produced_since_startup(&self) -> &Counter { unimplemented!() } }
+/// the certifier's create_certificate / verify_certificate_chain answers (their contracts: unit certifier_service)
+pub uninterp spec fn certificate_created(c: &CertifierService, t: &SignedEntityType) -> Option<Certificate>;
+pub uninterp spec fn chain_verified(c: &CertifierService, e: Epoch) -> bool;
+/// the signed entity the configuration derives for this type at this time point (C17)
+pub uninterp spec fn entity_at(cfg: &SignedEntityConfig, t: &SignedEntityType, tp: &TimePoint) -> SignedEntityType;
+pub uninterp spec fn service_config(e: &EpochServiceA) -> SignedEntityConfig;
+impl CertifierService {
+    #[verifier::external_body]
+    pub fn create_certificate(&self, t: &SignedEntityType) -> (r: Result<Option<Certificate>, StdError>) ensures r is Ok ==> r->Ok_0 == certificate_created(self, t) { unimplemented!() }
+    #[verifier::external_body]
+    pub fn verify_certificate_chain(&self, e: Epoch) -> (r: Result<(), StdError>) ensures r is Ok ==> chain_verified(self, e) { unimplemented!() }
+}
+impl EpochServiceA {
+    #[verifier::external_body]
+    pub fn signed_entity_config(&self) -> (r: Result<&SignedEntityConfig, StdError>) ensures r is Ok ==> *r->Ok_0 == service_config(self) { unimplemented!() }
+}
+impl SignedEntityConfig {
+    #[verifier::external_body]
+    pub fn time_point_to_signed_entity(&self, t: &SignedEntityType, tp: &TimePoint) -> (r: Result<SignedEntityType, StdError>) ensures r is Ok ==> r->Ok_0 == entity_at(self, t, tp) { unimplemented!() }
+}
+/// `a != b` on SignedEntityType (derived PartialEq of an opaque type)
+#[verifier::external_body]
+fn types_differ(a: &SignedEntityType, b: &SignedEntityType) -> (r: bool) ensures r == (*a != *b) { unimplemented!() }
+/// `current_open_message.as_ref().map(|om| om.is_expired).unwrap_or(false)`
+fn expired_or_false(o: &Option<OpenMessage>) -> (r: bool) ensures r == (o is Some && o->Some_0.is_expired) {
+    match o { Some(om) => om.is_expired, None => false }
+}
+pub struct Dependencies { pub certifier_service: CertifierService, pub signable_builder_service: SignableBuilderService, pub epoch_service: EpochServiceA, pub metrics_service: MetricsService }
 pub struct AggregatorRunner { pub dependencies: Dependencies }
 pub uninterp spec fn available_types(r: &AggregatorRunner, tp: &TimePoint) -> Seq<SignedEntityType>;
 
@@ -120,6 +156,71 @@ fn create_open_message(
             .certifier_service
             .create_open_message(signed_entity_type, protocol_message)
             
+    }
+// ---- end of extracted text ----
+
+// ---- extracted from mithril-aggregator/src/runtime/runner.rs:250 (fn is_certificate_chain_valid) ----
+fn is_certificate_chain_valid(&self, time_point: &TimePointE) -> (ret: Result<(), StdError>)
+    ensures ret is Ok ==> chain_verified(&self.dependencies.certifier_service, time_point.epoch)
+{
+                self.dependencies
+            .certifier_service
+            .verify_certificate_chain(time_point.epoch)
+            ?;
+
+        Ok(())
+    }
+// ---- end of extracted text ----
+
+// ---- extracted from mithril-aggregator/src/runtime/runner.rs:348 (fn create_certificate) ----
+fn create_certificate(
+        &self,
+        signed_entity_type: &SignedEntityType,
+    ) -> (ret: Result<Option<Certificate>, StdError>)
+    ensures ret is Ok ==> ret->Ok_0 == certificate_created(&self.dependencies.certifier_service, signed_entity_type)
+{
+        
+        let certificate = self.dependencies
+            .certifier_service
+            .create_certificate(signed_entity_type)?;
+
+        if certificate.is_some() {
+            self.dependencies
+                .metrics_service
+                .get_certificate_total_produced_since_startup()
+                .increment();
+        }
+
+        Ok(certificate)
+    }
+// ---- end of extracted text ----
+
+// ---- extracted from mithril-aggregator/src/runtime/runner.rs:476 (fn is_open_message_outdated) ----
+fn is_open_message_outdated(
+        &self,
+        open_message_signed_entity_type: SignedEntityType,
+        last_time_point: &TimePoint,
+    ) -> (ret: Result<bool, StdError>)
+    ensures ret is Ok ==> ret->Ok_0 == (
+        // the configuration derives ANOTHER signed entity for this type at the latest time point, or the stored open message has expired
+        entity_at(&service_config(&self.dependencies.epoch_service), &open_message_signed_entity_type, last_time_point) != open_message_signed_entity_type
+        || (stored_open_message(&self.dependencies.certifier_service, &open_message_signed_entity_type) is Some && stored_open_message(&self.dependencies.certifier_service, &open_message_signed_entity_type)->Some_0.is_expired))
+{
+        let current_open_message = self
+            .get_current_open_message_for_signed_entity_type(
+                &open_message_signed_entity_type,
+            )?;
+        let is_expired_open_message =
+            expired_or_false(&current_open_message);
+
+        let exists_newer_open_message = {
+            let new_signed_entity_type = self.dependencies.epoch_service
+                .signed_entity_config()?
+                .time_point_to_signed_entity(&open_message_signed_entity_type, last_time_point)?;
+            types_differ(&new_signed_entity_type, &open_message_signed_entity_type)
+        };
+
+        Ok(exists_newer_open_message || is_expired_open_message)
     }
 // ---- end of extracted text ----
 
